@@ -140,7 +140,7 @@ FAMILIES = {
     "C05": {"struct", "uniq", "sweep"}, "C06": set(), "C07": {"struct", "set"}, "C08": {"alg"},
     "C09": {"iter"}, "C10": {"consume", "struct"}, "C11": {"struct", "entry"}, "C12": {"ident"},
     "C13": {"gdm"}, "C14": {"eq"}, "C15": {"clone"}, "C16": {"bulk", "struct"}, "C17": {"struct"},
-    "C18": {"struct", "unchecked"}, "C19": {"fmt"}, "C20": {"serde"},
+    "C18": {"struct", "unchecked"}, "C19": {"fmt", "dbg"}, "C20": {"serde"},
 }
 
 
@@ -452,6 +452,19 @@ def alg_step(case, reg, toks, t, fails):
                 break
             elif ch in ("d", "D"):
                 pi += 1
+                if p != '"nodebug"':
+                    inb = lambda e: any(x[0] == e[0] for x in b)
+                    ina = lambda e: any(x[0] == e[0] for x in a)
+                    own = {"union": [(e[0], e[1]) for e in b] + [(e[0], e[1]) for e in a if not inb(e)],
+                           "intersection": [(e[0], e[1]) for e in a if inb(e)],
+                           "difference": [(e[0], e[1]) for e in a if not inb(e)],
+                           "symmetric_difference": [(e[0], e[1]) for e in a if not inb(e)] +
+                                                   [(e[0], e[1]) for e in b if not ina(e)]}[kind]
+                    togo = sorted(x for x in own if x[0] not in yielded)
+                    shown = sorted(dbg_keys_in(p))
+                    if shown != togo:
+                        fails.append("%s %s: Debug after yielding %s prints the elements %s, still to come are %s"
+                                     % (reg, kind, yielded, shown, togo))
             elif ch == "c":
                 if fork is None:
                     fork = list(yielded)
@@ -535,9 +548,16 @@ def consume_step(case, reg, toks, t, fails):
         if kind == "values":
             return "V%d.%d" % (e[2], e[3])
         return "K%d.%d:V%d.%d" % e
-    want = [show(e) for e in (pre[:n] if op == "drain" else list(reversed(pre))[:n])]
-    if sorted(items) != sorted(want) or len(set(items)) != len(items):
-        fails.append("%s %s yielded %s; it held %s" % (reg, op, items, [show(e) for e in pre]))
+    allshown = [show(e) for e in pre]
+    if len(items) != n or len(set(items)) != len(items) or not set(items) <= set(allshown):
+        fails.append("%s %s yielded %s for %d requested; it held %s" % (reg, op, items, take, allshown))
+    elif len(parts) >= 3 and parts[2] != '"nodebug"' and not (kind != "keys" and not isset and any(e[3] is None for e in pre)):
+        rest = [e for e in pre if show(e) not in items]
+        lk = "keys" if (isset or kind == "keys") else kind
+        cands = {esc_str(dbg_list(rest, lk, False)), esc_str(dbg_list(list(reversed(rest)), lk, False))}
+        if parts[2] not in cands:
+            fails.append("%s %s: Debug after %d items prints %s, the entries not yet yielded render as %s"
+                         % (reg, op, n, parts[2], esc_str(dbg_list(rest, lk, False))))
     if remaining != len(pre) - n:
         fails.append("%s %s: len() after %d items is %d, %d remain" % (reg, op, n, remaining, len(pre) - n))
     g = t["snaps"].get(reg)
@@ -599,6 +619,12 @@ def iter_step(case, reg, toks, t, fails):
             break
         elif ch in ("d", "D"):
             pi += 1
+            if p != '"nodebug"' and not (kind != "keys" and any(e[3] is None for e in pre)):
+                lk = {"iter": "pairs", "iter_mut": "pairs", "keys": "keys", "values": "values", "values_mut": "values"}[kind]
+                w = esc_str(dbg_list(pre[min(pos, len(pre)):], lk, ch == "D"))
+                if p != w:
+                    fails.append("%s %s: Debug after %d items prints %s, the entries not yet yielded render as %s"
+                                 % (reg, kind, pos, p, w))
         elif ch == "c":
             if not mut and fork is None:
                 fork = min(pos, len(pre))
@@ -718,6 +744,38 @@ def dbg_key(e, alt):
 
 def dbg_val(e, alt):
     return ("V(\n    %d,\n    %d,\n)" % (e[2], e[3])) if alt else "V%d.%d" % (e[2], e[3])
+
+
+def dbg_item(e, kind, alt):
+    """std's Debug of one yielded item: a key, a value, or the tuple `(key, value)`."""
+    if kind == "keys":
+        return dbg_key(e, alt)
+    if kind == "values":
+        return dbg_val(e, alt)
+    if alt:
+        return "(\n" + indent_lines(dbg_key(e, True)) + ",\n" + indent_lines(dbg_val(e, True)) + ",\n)"
+    return "(" + dbg_key(e, False) + ", " + dbg_val(e, False) + ")"
+
+
+def dbg_list(ents, kind, alt):
+    """std's `debug_list` rendering of the items."""
+    if not alt:
+        return "[" + ", ".join(dbg_item(e, kind, False) for e in ents) + "]"
+    if not ents:
+        return "[]"
+    return "[\n" + "".join(indent_lines(dbg_item(e, kind, True)) + ",\n" for e in ents) + "]"
+
+
+RE_DBG_K = re.compile(r"K(?:(\d+)\.(\d+)|\(\\n~+(\d+),\\n~+(\d+),\\n~*\))")
+
+
+def dbg_keys_in(s):
+    """the (class, id) of every key printed in an escaped Debug string (plain or alternate form)."""
+    out = []
+    for m in RE_DBG_K.finditer(s):
+        g = m.groups()
+        out.append((int(g[0]), int(g[1])) if g[0] is not None else (int(g[2]), int(g[3])))
+    return out
 
 
 def fmt_step(case, reg, toks, t, fails):
@@ -915,6 +973,11 @@ def run(prop, ops_path, impl_path, profile):
                         consume_step(case, reg, toks, t, fails)
                     if "iter" in fam and op == "iter":
                         iter_step(case, reg, toks, t, fails)
+                    if "dbg" in fam and op in ("iter", "drain", "into_iter", "alg"):
+                        tmp = []
+                        {"iter": iter_step, "drain": consume_step, "into_iter": consume_step,
+                         "alg": alg_step}[op](case, reg, toks, t, tmp)
+                        fails.extend(m for m in tmp if ": Debug after " in m)
                     if "entry" in fam and op == "entry" and reg.startswith("m"):
                         entry_step(case, reg, toks, t, fails)
                     if "fmt" in fam and op == "fmt":
